@@ -77,6 +77,7 @@ def build_repo(root, packed, fsync=False):
         r.object_store.add_object(o)
     r.refs[b"refs/heads/master"] = c2.id
     r.refs[b"refs/heads/side"] = c1.id
+    r.refs[b"refs/heads/both"] = c1.id
     r.refs[b"refs/tags/v1"] = tag.id
     r.refs.set_symbolic_ref(b"HEAD", b"refs/heads/master")
     cfg = r.get_config()
@@ -101,6 +102,8 @@ def build_repo(root, packed, fsync=False):
         # one ref loose over packed, loose objects on top of the pack (reachable and not)
         r.refs[b"refs/heads/side"] = c2.id
         r.refs[b"refs/heads/side"] = c1.id
+        # ... and one whose loose value differs from the (older) packed one
+        r.refs[b"refs/heads/both"] = c2.id
         bx = Blob.from_string(b"loose on top of the pack\n")
         tx = Tree()
         tx.add(b"x", 0o100644, bx.id)
@@ -206,6 +209,46 @@ def op_remove_side(root):
     r = _wt(root)
     try:
         assert r.refs.remove_if_equals(b"refs/heads/side", i["c1"])
+    finally:
+        r.close()
+
+
+def _both(r):
+    return r.refs.read_loose_ref(b"refs/heads/both")
+
+
+def op_remove_both(root):
+    r = _wt(root)
+    try:
+        assert r.refs.remove_if_equals(b"refs/heads/both", _both(r))
+    finally:
+        r.close()
+
+
+def op_del_both(root):
+    r = _wt(root)
+    try:
+        del r.refs[b"refs/heads/both"]
+    finally:
+        r.close()
+
+
+def op_locked_delete_both(root):
+    from dulwich.refs import locked_ref
+
+    r = _wt(root)
+    try:
+        with locked_ref(r.refs, b"refs/heads/both") as lr:
+            lr.delete()
+    finally:
+        r.close()
+
+
+def op_set_both(root):
+    i = ids(root)
+    r = _wt(root)
+    try:
+        assert r.refs.set_if_equals(b"refs/heads/both", _both(r), i["b1"] and i["c1"] if _both(r) != i["c1"] else i["c2"])
     finally:
         r.close()
 
@@ -393,6 +436,10 @@ OPS = {
     "set_if_equals(side)": op_set_side,
     "remove_if_equals(side)": op_remove_side,
     "del refs[tag]": op_remove_tag,
+    "remove_if_equals(both)": op_remove_both,
+    "del refs[both]": op_del_both,
+    "locked_ref.delete(both)": op_locked_delete_both,
+    "set_if_equals(both)": op_set_both,
     "set_symbolic_ref(HEAD)": op_symref,
     "pack_refs(all)": op_pack_refs,
     "add_pack+commit": op_add_pack,
@@ -413,6 +460,7 @@ QUICK_OPS = [
     "add_object x3", "WorkTree.commit", "set_if_equals(master)", "remove_if_equals(side)", "pack_refs(all)",
     "add_objects", "add_thin_pack", "pack_loose_objects", "repack", "garbage_collect(grace=0)", "Index.write",
     "ConfigFile.write_to_path", "set_symbolic_ref(HEAD)", "local push (receive)",
+    "remove_if_equals(both)", "del refs[both]", "locked_ref.delete(both)", "set_if_equals(both)",
 ]
 
 
